@@ -129,6 +129,9 @@ def check(pid, tier, replay=None):
             rnd.shuffle(rest)
             behs = prim + rest[: max(0, cap - len(prim))]
         behs.append(dict(id="%s-types" % pid, mode="types", type="", params="", seed=0))
+        if pid == "C16":
+            # size-only inputs (1.5 M repeated / 1.2 M nested constructed headers), each decode in a child process
+            behs.append(dict(id="C16-deep", mode="deep", type="", params="", seed=0, n=1500000))
     else:
         with open(replay) as f:
             behs = [json.load(f)["behaviour"]]
